@@ -77,7 +77,7 @@ Theorem C14_observers :
      | QFull => r = RBool (Nat.eqb (length (bbq_before h1)) cap)
      | QCapacity => r = RSize cap
      end).
-Proof. split; [exact bq_observers|exact bbq_observers]. Qed.
+Proof. exact observers. Qed.
 Print Assumptions C14_observers.
 
 (* in EVERY reachable state: handed out ++ still queued = put (nothing lost, nothing invented,
